@@ -1,6 +1,7 @@
 import QipVerif.Lemmas.QasmExportSem
 import QipVerif.Lemmas.QasmMat
 import QipVerif.Lemmas.QasmExportTop
+import QipVerif.Lemmas.QasmRoundtrip
 /-!
 # C10 — exported OpenQASM is valid OpenQASM 2.0 and denotes the same circuit
 
@@ -140,6 +141,38 @@ theorem export_den_G (c : Circuit) (hc : GoodCircuit c)
     obtain ⟨g, rfl, hg⟩ := hc op hop
     exact ⟨g, rfl, hg, hq g hop⟩) (fun i hi => by simpa using hρ i hi)]
   exact h5
+
+/-- **Export, then import: the same unitary (partial: circuits without emitted definitions).**
+For every circuit of the exportable class on at least one qubit whose gate names all belong to the
+exporter's base table (`QASMU RX RY RZ SNOT X Y Z S T CRZ CNOT TOFFOLI` — the exporter then emits no
+`gate` definition, `addedNames … = []`): the exported text parses to a program `P`, the importer
+model of C04 (`Import.importProgram`, tied to `read_qasm` by C04's correspondence) accepts `P`
+with the same register sizes, and the gate list it returns has — under `denX`, which is `denG` on IR
+gates — the unitary of the original circuit up to ONE global phase, on every register size.
+Circuits that need an emitted definition (`SWAP SQRTNOT CS CT CRX CRY`) are re-imported as user gates;
+their round trip is covered by the per-definition theorems `definitions_sound` / `export_den` and by
+C04's user-gate correspondence, not by this theorem. -/
+theorem roundtrip_den_partial (c : Circuit) (hc : GoodCircuit c) (hN : 0 < c.N)
+    (hb : addedNames c.ops Gen.gateNameToQasm = []) :
+    ∃ lines P iops A B, exportCircuit c = .ok lines ∧ parseLines lines = some P ∧
+      Import.importProgram P = .ok (c.N, (cregsOf c.numCbits).total, iops) ∧
+      denX c.N (c.ops.filterMap xOfOp) = some A ∧ denX c.N (iops.filterMap Import.xOfIOp) = some B ∧
+      PhaseEqN B A :=
+  roundtrip_den_base c hc hN hb
+
+/-- the hypotheses of `roundtrip_den_partial` are satisfiable -/
+example : ∃ c : Circuit, GoodCircuit c ∧ 0 < c.N ∧ addedNames c.ops Gen.gateNameToQasm = [] :=
+  ⟨⟨3, 0, [
+    .gate ⟨cs!"RX", some [0], none, .num ⟨false, cs!"0.25"⟩, none⟩,
+    .gate ⟨cs!"QASMU", some [2], none, .seq cs!"tuple" cs!"(0.1, 0.2, 0.3)"
+      [⟨false, cs!"0.1"⟩, ⟨true, cs!"0.0"⟩, ⟨false, cs!"1.5e+20"⟩], none⟩,
+    .gate ⟨cs!"CRZ", some [1], some [2], .num ⟨true, cs!"3.141592653589793"⟩, none⟩,
+    .gate ⟨cs!"TOFFOLI", some [0], some [2, 1], .none, none⟩]⟩, by
+    intro op hop
+    simp only [List.mem_cons, List.not_mem_nil, or_false] at hop
+    rcases hop with rfl | rfl | rfl | rfl <;>
+      exact ⟨_, rfl, ⟨by decide, by decide, by decide, by decide, by decide, by decide, by decide⟩⟩,
+    by decide, by decide⟩
 
 /-! ### Counter-examples to the unrestricted statement (recorded findings) -/
 
